@@ -32,10 +32,10 @@ def gen_system(rng, kind=None, small_limit=True):
         return sysd
     sysd["B"] = wchoice(rng, [(3, 0), (4, rng.randint(0, 6))])
     sysd["D"] = D
-    if rng.random() < 0.2:
-        # near-full utilisation (sporadic tasks): the busy window spans several jobs of the analysed
-        # task, late offsets matter; generous limit
-        hp, (a, C) = gen.gen_dense_taskset(rng)
+    if rng.random() < 0.4:
+        # near-full utilisation / small-scope sporadic task sets: the busy window spans several jobs of the
+        # analysed task, late offsets matter; generous limit
+        hp, (a, C) = gen.gen_dense_taskset(rng) if rng.random() < 0.4 else gen.gen_small_taskset(rng)
         sysd["limit"] = rng.randint(150, 400)
         sysd["B"] = wchoice(rng, [(2, 0), (5, rng.randint(1, 4))])
         sysd["arr"], sysd["C"] = a, C
@@ -434,6 +434,13 @@ def falsify_C03(ctx):
 
 def gen_sched_system(rng, policy):
     """tasks for the schedule-level falsifiers: list of dicts(arr, C, seg, D)"""
+    if rng.random() < 0.3:
+        # small-scope / near-full-utilisation sporadic task sets (index = priority for FP)
+        hp, own = gen.gen_small_taskset(rng) if rng.random() < 0.6 else gen.gen_dense_taskset(rng)
+        ts = hp + [own]
+        if policy != "fp":
+            rng.shuffle(ts)
+        return [{"arr": a, "C": c, "seg": rng.randint(1, c), "D": rng.randint(1, 40)} for a, c in ts]
     k = wchoice(rng, [(1, 1), (3, 2), (3, 3), (2, 4)])
     tasks = []
     for _ in range(k):
@@ -1011,6 +1018,23 @@ def falsify_C17(ctx):
         if h is None:
             continue
         pairs.append((system_op(sd), system_op(h), what, sd["kind"]))
+    # a task analysed ALONE (no interfering task at all) whose busy window holds several of its own jobs,
+    # then one interfering task is added: the degenerate "nothing interferes" path of every analysis
+    # against its general path
+    nalone = 80 if ctx["tier"] == "quick" else 3000
+    for i in range(nalone):
+        kind = rng.choice(["fp_p", "fp_np", "fp_lp", "fp_fl", "edf_p", "edf_np", "edf_lp", "edf_fl"])
+        T = rng.randint(4, 20)
+        C = rng.randint(2, min(8, T))
+        J = rng.randint(max(T - C + 1, 0), 2 * T + 3)
+        a = ("spo", T, J)
+        sd = {"kind": kind, "limit": rng.randint(300, 900), "B": (0 if rng.random() < 0.6 else rng.randint(1, 4)), "D": rng.randint(1, 40),
+              "arr": a, "C": C, "last": wchoice(rng, [(1, 1), (2, C), (2, rng.randint(1, C))]), "tua": ("rbf", a, ("sc", C)), "others": []}
+        h = copy.deepcopy(sd)
+        oa = ("spo", rng.randint(50, 1000), 0) if rng.random() < 0.6 else ("per", rng.randint(5, 30))
+        oc = rng.randint(1, 3)
+        h["others"].append({"rb": ("rbf", oa, ("sc", oc)), "arr": oa, "C": oc, "D": sd["D"] + rng.randint(0, 20), "seg": rng.randint(1, oc)})
+        pairs.append((system_op(sd), system_op(h), "add_to_none", kind))
     # ROS 2 analyses with scalar costs
     from . import streams as st_mod
     m = n // 2
@@ -1200,6 +1224,9 @@ def falsify_C19(ctx):
             C = rng.randint(1, 8)
             D = rng.randint(0, 60)
             os_ = [(gen.gen_task_arr(rng), rng.randint(1, 8), rng.randint(0, 60)) for _ in range(nO)]
+            if rng.random() < 0.08:
+                # an interfering task that never releases anything, with a long cost / segment and a later deadline
+                os_.append((("never",), rng.randint(4, 8), D + rng.randint(1, 40)))
             if what == "edf_lp1_p":
                 A_ = f"edf_lp {sa} {C} {D} 1 {len(os_)}" + "".join(f" rbf {gen.arr_str(x)} sc {c} {d} 1" for x, c, d in os_) + f" {lim}"
                 B_ = f"edf_p rbf {sa} sc {C} {D} {len(os_)}" + "".join(f" rbf {gen.arr_str(x)} sc {c} {d}" for x, c, d in os_) + f" {lim}"
